@@ -53,6 +53,12 @@ pub struct ScriptedFate {
     pub fate: Fate,
 }
 
+thread_local! {
+    /// rounds by which deliveries run ahead while a session spins in a lockstep wait
+    pub static WAIT_EARLY: std::cell::Cell<i32> = const { std::cell::Cell::new(0) };
+    pub static WAIT_YIELDS_THIS_CALL: std::cell::Cell<u32> = const { std::cell::Cell::new(0) };
+}
+
 pub struct Pkt {
     pub from: Addr,
     pub to: Addr,
@@ -244,7 +250,9 @@ impl SimNet {
     }
 
     fn recv(&mut self, to: Addr) -> Vec<(Addr, Message)> {
-        let round = self.round;
+        // inside a lockstep wait time passes: from the middle of the wait on, packets that are due
+        // in the next round arrive (the wait lasts about one frame period = one round)
+        let round = self.round + WAIT_EARLY.with(std::cell::Cell::get);
         let mut out: Vec<Pkt> = Vec::new();
         let mut i = 0;
         while i < self.inflight.len() {
